@@ -277,6 +277,11 @@ type Transport struct {
 	buf    [512]byte
 	// Scenario tag mixed into state hashes.
 	Tag string
+	// dead holds per-attempt contexts whose deadline has passed in the model
+	// (a Send that timed out waited until that context's deadline). A real
+	// socket refuses to write once the deadline is behind it, so a later Send
+	// with the same context fails at once without transmitting.
+	dead map[context.Context]struct{}
 	// MaxAttempts caps the transmissions of one operation (0: 5000); beyond it
 	// Send panics with Runaway so the harness regains control.
 	MaxAttempts int
@@ -288,6 +293,9 @@ type Transport struct {
 	SleepQuantum time.Duration
 	// RootKey marks contexts derived from the harness's root context.
 	Closed bool
+	// DeadCtxSends counts Sends refused because their per-attempt context had
+	// already been used up by an earlier timed-out attempt.
+	DeadCtxSends int
 }
 
 type rootKeyT struct{}
@@ -343,6 +351,13 @@ func (t *Transport) Send(ctx context.Context, b []byte) ([]byte, error) {
 	t.Log = append(t.Log, ex)
 	if t.Clock != nil && ctx.Value(RootKey) == nil {
 		ex.Err = ErrNotDescendant
+	}
+	if _, isDead := t.dead[ctx]; isDead && ctx.Err() == nil {
+		ex.CtxDone = true
+		ex.Answer = "attempt-context-deadline-already-passed"
+		ex.Err = context.DeadlineExceeded
+		t.DeadCtxSends++
+		return nil, context.DeadlineExceeded
 	}
 	if ctx.Err() != nil {
 		// the real transport fails on the write deadline: nothing is transmitted
@@ -402,6 +417,16 @@ func (t *Transport) Send(ctx context.Context, b []byte) ([]byte, error) {
 			t.Clock.Charge(t.Timeout)
 		}
 		ex.Err = ErrTimeout
+		if _, ok := ctx.Deadline(); ok {
+			// the attempt waited until its own deadline
+			if t.dead == nil {
+				t.dead = map[context.Context]struct{}{}
+			}
+			if len(t.dead) > 4096 {
+				t.dead = map[context.Context]struct{}{}
+			}
+			t.dead[ctx] = struct{}{}
+		}
 		return nil, ErrTimeout
 	}
 	d := t.Queue[0]
